@@ -202,7 +202,7 @@ func c16Layout(p *chk.Prog, r *chk.Report) {
 			case "Len":
 				seenLen = true
 				okv := definedBy(g, "safeconvert.IntToUInt16(B.Len())", chk.H("B", f.IsObj(buf)))(b["V"])
-				w := (&chk.Walk{G: g, From: s, Hit: isWrite, Stop: f.ContainsPat("io.Copy(W, &B)", chk.H("B", f.IsObj(buf)))}).Run()
+				w := (&chk.Walk{G: g, From: s, Hit: isWrite, Stop: sendsBuffer(f, buf)}).Run()
 				// the value is measured after the last write before the patch
 				vid, _ := ast.Unparen(b["V"]).(*ast.Ident)
 				okOrder := false
@@ -215,7 +215,7 @@ func c16Layout(p *chk.Prog, r *chk.Report) {
 				}
 				x.Check(key+":total-length-final", s.Pos(), okv && !w.Found && okOrder, "", "the message length is not b.Len() measured after the last byte was appended (or bytes are appended after it was patched)")
 				wc := g.MustPass(s, nil, true, func(n ast.Node) bool {
-					return f.ContainsPat("io.Copy(W, &B)", chk.H("B", f.IsObj(buf)))(n) || isErrReturn(f, n)
+					return sendsBuffer(f, buf)(n) || isErrReturn(f, n)
 				})
 				x.Check(key+":then-sent", s.Pos(), !wc.Found, "", "the patched buffer is not written to the connection")
 			case "AttrLen", "WdrLen":
@@ -499,19 +499,8 @@ func c16Attrs(p *chk.Prog, r *chk.Report) {
 	buf := isParamIdx(f, 0)
 	writes := g.FindPat("B.Write(L)", chk.H("B", buf))
 	sizeOfWrite := func(n ast.Node) (int, bool) {
-		// binary.Write(b, BigEndian, v): packed size of v
-		var sz int
-		ok := false
-		chk.InspectNoLit(n, func(m ast.Node) bool {
-			if e, isE := m.(ast.Expr); isE {
-				if b := f.MatchWith("binary.Write(B, binary.BigEndian, V)", e, chk.H("B", buf)); b != nil {
-					if t := f.Info().TypeOf(b["V"]); t != nil {
-						sz, ok = chk.PackedSize(t), chk.PackedSize(t) > 0
-					}
-				}
-			}
-			return true
-		})
+		// a fixed-size value appended to the buffer: its packed size
+		_, sz, ok := fixedWrite(f, buf, n)
 		return sz, ok
 	}
 	nextBinaryWrite := func(from chk.Site) (int, bool) {
@@ -587,12 +576,13 @@ func c16Attrs(p *chk.Prog, r *chk.Report) {
 			if list != nil {
 				sz, ok := nextBinaryWrite(s)
 				okLen = ok && sz == 1
+				nWriters := 0
 				for _, rs := range f.RangeLoops(f.IsObj(list)) {
 					el := rangeVal(f, rs)
 					wr := func(n ast.Node) bool {
 						found := false
 						chk.InspectNoLit(n, func(m ast.Node) bool {
-							if e, isE := m.(ast.Expr); isE && f.MatchWith("binary.Write(B, binary.BigEndian, C)", e, chk.H("B", buf), chk.H("C", el)) != nil {
+							if v, _, ok := fixedWrite(f, buf, m); ok && el(v) {
 								found = true
 							}
 							return true
@@ -600,12 +590,36 @@ func c16Attrs(p *chk.Prog, r *chk.Report) {
 						return found
 					}
 					okLen = okLen && !loopSkipsWithout(g, rs, wr, chk.NoGuard) && !loopHasBreak(g, rs) && chk.PackedSize(f.Info().TypeOf(rs.Value)) == 4
+					nWriters++
 				}
+				// or the whole list in one binary.Write (a slice of fixed-size values is encoded element by element)
+				for _, c := range g.FindPat("binary.Write(B, binary.BigEndian, L)", chk.H("B", buf), chk.H("L", f.IsObj(list))) {
+					if sl, isSl := f.Info().TypeOf(c.Node.(*ast.CallExpr).Args[2]).Underlying().(*types.Slice); isSl && chk.PackedSize(sl.Elem()) == 4 && f.LoopOf(c.Node) == nil {
+						nWriters++
+					} else {
+						okLen = false
+					}
+				}
+				okLen = okLen && nWriters == 1
 				// the list gets one element per community
 				okFill := false
 				for _, rs := range f.RangeLoops(func(e ast.Expr) bool { return f.MatchNew("A.Communities", e) != nil }) {
 					app := f.IsAssignPat("L", "append(L, V)", chk.H("L", isObjOrSource(f, list)))
 					okFill = !loopSkipsWithout(g, rs, app, chk.NoGuard) && !loopHasBreak(g, rs)
+					if !okFill {
+						// made with one slot per community and filled slot by slot: L := make([]T, len(A.Communities)); L[i] = v
+						sized := false
+						for _, d := range assignsTo(f, list) {
+							if as, isAs := d.(*ast.AssignStmt); isAs && len(as.Rhs) == 1 && f.MatchWith("make(T, len(C))", as.Rhs[0], chk.H("C", func(e ast.Expr) bool { return f.SameExpr(e, rs.X) })) != nil {
+								sized = true
+							} else {
+								sized = false
+								break
+							}
+						}
+						store := f.IsAssignPat("L[I]", "V", chk.H("L", f.IsObj(list)), chk.H("I", rangeKey(f, rs)))
+						okFill = sized && !loopSkipsWithout(g, rs, store, chk.NoGuard) && !loopHasBreak(g, rs)
+					}
 				}
 				okLen = okLen && okFill
 			}
@@ -652,12 +666,21 @@ func c16Attrs(p *chk.Prog, r *chk.Report) {
 	}
 	asn := isParam(f, "asn")
 	ok4 := false
-	for _, s := range g.FindPat("binary.Write(B, binary.BigEndian, A)", chk.H("B", buf), chk.H("A", asn)) {
-		ok4 = g.Dominated(s, chk.GBool(true, fbasn)) && g.Dominated(s, fI)
-	}
+	conv := definedBy(g, "safeconvert.Uint32ToInt16(ASN)", chk.H("ASN", asn))
 	ok2 := false
-	for _, s := range g.FindPat("binary.Write(B, binary.BigEndian, A)", chk.H("B", buf), chk.H("A", definedBy(g, "safeconvert.Uint32ToInt16(ASN)", chk.H("ASN", asn)))) {
-		ok2 = g.Dominated(s, g.GErrNil(true, "safeconvert.Uint32ToInt16(ASN)", chk.H("ASN", asn))) && g.Dominated(s, chk.GBool(false, fbasn))
+	for _, s := range g.Find(func(n ast.Node) bool {
+		if _, isE := n.(ast.Expr); !isE {
+			return false
+		}
+		v, _, ok := fixedWriteAt(f, buf, n)
+		return ok && (asn(v) || conv(v))
+	}) {
+		v, _, _ := fixedWriteAt(f, buf, s.Node)
+		if asn(v) {
+			ok4 = g.Dominated(s, chk.GBool(true, fbasn)) && g.Dominated(s, fI)
+		} else {
+			ok2 = g.Dominated(s, g.GErrNil(true, "safeconvert.Uint32ToInt16(ASN)", chk.H("ASN", asn))) && g.Dominated(s, chk.GBool(false, fbasn))
+		}
 	}
 	y.Check("attrs:own-asn-in-path", f.Pos(), ok4 && ok2, "", "the AS path does not carry the speaker's own ASN (4-byte form: asn; 2-byte form: checked conversion of asn)")
 	so := need(y, p, natPkg, "", "sendOpen")
@@ -1095,24 +1118,24 @@ func c16Read(p *chk.Prog, r *chk.Report) {
 			if !ok || fs.Cond != nil {
 				return true
 			}
-			okp := false
-			if len(fs.Body.List) >= 2 {
-				// `hdr := struct{…}{}` then `if err := binary.Read(...); err != nil { … return … }`
-				for _, st := range fs.Body.List[:2] {
-					ifs, ok := st.(*ast.IfStmt)
-					if !ok || ifs.Init == nil {
-						continue
-					}
-					if as, ok := ifs.Init.(*ast.AssignStmt); ok && len(as.Rhs) == 1 && f.MatchNew("binary.Read(R, binary.BigEndian, V)", as.Rhs[0]) != nil {
-						// every path through the error branch returns
-						for _, e := range g.EdgesImplying(g.GErrNil(false, "binary.Read(R, binary.BigEndian, V)")) {
-							if chk.Encloses(ifs, e.B.Nodes[len(e.B.Nodes)-1]) {
-								okp = !g.BranchAlways(e, func(m ast.Node) bool { _, isRet := m.(*ast.ReturnStmt); return isRet }).Found
-							}
-						}
-					}
+			// every way to the next iteration has a successful read behind it: a failed read (EOF of the bounded reader
+			// included) leaves the function
+			ends := g.ForIterationEnds(fs)
+			okp := len(ends) > 0
+			for _, e := range ends {
+				if !g.Dominated(e, g.GErrNil(true, "binary.Read(R, binary.BigEndian, V)")) {
+					okp = false
 				}
 			}
+			// and that read belongs to this iteration
+			nRead := 0
+			chk.InspectNoLit(fs.Body, func(m ast.Node) bool {
+				if e, isE := m.(ast.Expr); isE && f.MatchNew("binary.Read(R, binary.BigEndian, V)", e) != nil {
+					nRead++
+				}
+				return true
+			})
+			okp = okp && nRead >= 1
 			x.Check(name+":loop-progress", fs.Pos(), okp, "", "a decoder loop does not start with a read whose failure (including EOF of the bounded reader) leaves the function: it can spin or hang")
 			return true
 		})
@@ -1225,4 +1248,62 @@ func c16Validated(p *chk.Prog, r *chk.Report) {
 		}
 		x.Check("Set:stores-only-validated", st.Pos(), ok, "", "an advertisement can become pending without having passed validate")
 	}
+}
+
+// sendsBuffer: the node hands the whole buffer to a writer: io.Copy(w, &b), b.WriteTo(w) or w.Write(b.Bytes()).
+func sendsBuffer(f *chk.Fn, buf types.Object) func(ast.Node) bool {
+	isB := f.IsObj(buf)
+	forms := []func(ast.Node) bool{
+		f.ContainsPat("io.Copy(W, &B)", chk.H("B", isB)),
+		f.ContainsPat("io.Copy(W, B)", chk.H("B", isB)),
+		f.ContainsPat("B.WriteTo(W)", chk.H("B", isB)),
+		f.ContainsPat("W.Write(B.Bytes())", chk.H("B", isB)),
+	}
+	return func(n ast.Node) bool {
+		for _, fm := range forms {
+			if fm(n) {
+				return true
+			}
+		}
+		return false
+	}
+}
+
+// fixedWriteAt: the expression appends one fixed-size value to the buffer in network byte order:
+// binary.Write(b, binary.BigEndian, v), b.Write(binary.BigEndian.AppendUintN(nil, v)), or b.WriteByte(v) of a
+// non-constant byte. It returns the value and its size on the wire.
+func fixedWriteAt(f *chk.Fn, buf func(ast.Expr) bool, n ast.Node) (ast.Expr, int, bool) {
+	e, isE := n.(ast.Expr)
+	if !isE {
+		return nil, 0, false
+	}
+	if b := f.MatchWith("binary.Write(B, binary.BigEndian, V)", e, chk.H("B", buf)); b != nil {
+		if t := f.Info().TypeOf(b["V"]); t != nil && chk.PackedSize(t) > 0 {
+			return b["V"], chk.PackedSize(t), true
+		}
+		return nil, 0, false
+	}
+	for name, sz := range map[string]int{"AppendUint16": 2, "AppendUint32": 4, "AppendUint64": 8} {
+		if b := f.MatchWith("B.Write(binary.BigEndian."+name+"(nil, V))", e, chk.H("B", buf)); b != nil {
+			return b["V"], sz, true
+		}
+	}
+	if b := f.MatchWith("B.WriteByte(V)", e, chk.H("B", buf)); b != nil && f.ConstVal(b["V"]) == nil {
+		return b["V"], 1, true
+	}
+	return nil, 0, false
+}
+
+// fixedWrite: the node contains (outside literals) one such write.
+func fixedWrite(f *chk.Fn, buf func(ast.Expr) bool, n ast.Node) (v ast.Expr, sz int, ok bool) {
+	chk.InspectNoLit(n, func(m ast.Node) bool {
+		if ok {
+			return false
+		}
+		if v2, s2, ok2 := fixedWriteAt(f, buf, m); ok2 {
+			v, sz, ok = v2, s2, true
+		}
+		return true
+	})
+	return
 }
